@@ -9,6 +9,7 @@ from fractions import Fraction
 
 from .. import core
 from .. import annot
+from . import c17_reach
 
 PID = 'C16'
 DRV = 'drv_c16'
@@ -218,6 +219,11 @@ def run(chk):
                 'modification kind) with queries cut from them by hand and perturbed (mod dropped/added/reordered, residue '
                 'changed, terminal/global mod toggled, stripped); non-trivial = at least one occurrence found; distinct = '
                 'distinct protocol line')
+    reach = c17_reach.LineCoverage(
+        [PA.is_subsequence, PA.find_indices, PA.count_residues,
+         sf.find_subsequence_indices, sf.is_subsequence, sf._count_residue_keys, sf.coverage, sf.percent_coverage,
+         sf.count_residues], tool='verif-c16')   # slice / strip / split / __eq__ are measured by their owners (C11, C20)
+    reach.start()
     replay_corpus(chk)
 
     targets = [''.join(t) for k in range(0, nmax + 1) for t in itertools.product('AK', repeat=k)]
@@ -383,6 +389,7 @@ def run(chk):
     chk.oracle('unordered_containment', ucases, lambda c: prop_unordered(pt, c), nontrivial_fn=lambda c: True,
                key_fn=lambda c: json.dumps(c, sort_keys=True))
 
+    c17_reach.record(chk, reach)
     if tier == 'thorough':
         chk.leanchecker(['PeptVerif.Props.C16', 'PeptVerif.Lemmas.Search', 'PeptVerif.Model.Search'])
     return chk.finish(classify)
@@ -399,6 +406,12 @@ def prop_plain(pt, c):
     if q and t:
         if pt.is_subsequence(q, t) != bool(exp):
             return f'is_subsequence({q!r}, {t!r}) = {pt.is_subsequence(q, t)} but occurrences are {exp}'
+        cq, ct = Counter(q), Counter(t)
+        want = all(cq[k] <= ct[k] for k in cq)
+        if pt.is_subsequence(q, t, order=False) != want:
+            return f'is_subsequence({q!r}, {t!r}, order=False) != {want} (residue counts {dict(cq)} vs {dict(ct)})'
+        if pt.count_residues(t) != ct:
+            return f'count_residues({t!r}) = {dict(pt.count_residues(t))}'
     return None
 
 
